@@ -25,6 +25,37 @@ import (
 type c14Tok struct {
 	Kind string   `json:"kind"` // ph sq dq bq dash hash cc mm
 	Body []string `json:"body,omitempty"`
+	// Open: dash: what follows the two dashes ("" = space, tab nl cr ff vt c01 c1f c7f eot);
+	// cc: the byte right after /* ("" = none, sp tab nl star slash dash).
+	Open string `json:"open,omitempty"`
+	// Term: dash/hash: the end of the line comment ("" = \n, crnl, eot = end of text);
+	// cc: the byte right before */ ("" = none, sp nl star slash).
+	Term string `json:"term,omitempty"`
+}
+
+var c14DashOpen = map[string]string{"": " ", "tab": "\t", "nl": "\n", "cr": "\r", "ff": "\f", "vt": "\v", "c01": "\x01", "c1f": "\x1f", "c7f": "\x7f", "eot": ""}
+var c14DashOpens = []string{"", "tab", "nl", "cr", "ff", "vt", "c01", "c1f", "c7f", "eot"}
+var c14LineTerm = map[string]string{"": "\n", "crnl": "\r\n", "eot": ""}
+var c14LineTerms = []string{"", "crnl", "eot"}
+var c14CcOpen = map[string]string{"": "", "sp": " ", "tab": "\t", "nl": "\n", "star": "*", "slash": "/", "dash": "-"}
+var c14CcOpens = []string{"", "sp", "tab", "nl", "star", "slash", "dash"}
+var c14CcTerm = map[string]string{"": "", "sp": " ", "nl": "\n", "star": "*", "slash": "/"}
+var c14CcTerms = []string{"", "sp", "nl", "star", "slash"}
+
+// c14AtEnd: the unit runs to the end of the text (must be the last unit, empty suffix).
+func c14AtEnd(t c14Tok) bool {
+	return (t.Kind == "dash" && (t.Open == "eot" || (t.Open != "nl" && t.Term == "eot"))) || (t.Kind == "hash" && t.Term == "eot")
+}
+
+// c14ParserDisagrees: Gaea's lexer accepts only unicode white space after "--", MySQL also
+// control characters; the self-check is skipped for those openers.
+func c14ParserDisagrees(c c14Case) bool {
+	for _, t := range c.Toks {
+		if t.Kind == "dash" && (t.Open == "c01" || t.Open == "c1f" || t.Open == "c7f") {
+			return true
+		}
+	}
+	return false
 }
 
 type c14Case struct {
@@ -53,7 +84,7 @@ var c14Valid = map[string][]string{
 var c14Simpler = map[string]string{"bs-sq": "sq", "bs-dq": "dq", "sq2": "sq", "dq2": "dq", "bq2": "bq", "bs2": "bs", "bs-n": "txt",
 	"dash": "txt", "hashc": "txt", "cco": "txt", "ccc": "txt", "sp": "txt", "nl": "txt"}
 
-var c14Skels = [][2]string{{"select", " from t"}, {"select 1 from t where c in (", ")"}, {"insert into t values (", ")"}}
+var c14Skels = [][2]string{{"select", " from t"}, {"select 1 from t where c in (", ")"}, {"insert into t values (", ")"}, {"select", ""}}
 
 func c14PieceOK(kind, piece string) bool {
 	for _, p := range c14Valid[kind] {
@@ -66,6 +97,9 @@ func c14PieceOK(kind, piece string) bool {
 
 // c14TokText renders one unit; ok=false if the body would end the unit early.
 func c14TokText(t c14Tok) (string, bool) {
+	if t.Kind != "dash" && t.Kind != "hash" && t.Kind != "cc" && (t.Open != "" || t.Term != "") {
+		return "", false
+	}
 	if t.Kind == "ph" {
 		return "?", len(t.Body) == 0
 	}
@@ -89,11 +123,31 @@ func c14TokText(t c14Tok) (string, bool) {
 	case "bq":
 		return "`c" + body + "`", true
 	case "dash":
-		return "-- " + body + "\n", true
+		op, ok1 := c14DashOpen[t.Open]
+		tm, ok2 := c14LineTerm[t.Term]
+		if !ok1 || !ok2 {
+			return "", false
+		}
+		switch t.Open {
+		case "nl": // the line break that makes "--" a comment also ends it
+			return "--\n", len(t.Body) == 0 && t.Term == ""
+		case "eot":
+			return "--", len(t.Body) == 0 && t.Term == ""
+		}
+		return "--" + op + body + tm, true
 	case "hash":
-		return "#" + body + "\n", true
+		tm, ok := c14LineTerm[t.Term]
+		if !ok || t.Open != "" {
+			return "", false
+		}
+		return "#" + body + tm, true
 	case "cc":
-		full := "/*" + body + "*/" // no piece begins with ! or +, so never /*! or /*+
+		op, ok1 := c14CcOpen[t.Open]
+		tm, ok2 := c14CcTerm[t.Term]
+		if !ok1 || !ok2 {
+			return "", false
+		}
+		full := "/*" + op + body + tm + "*/" // never /*! or /*+
 		// the first */ must be the closing one
 		if strings.Index(full[2:], "*/") != len(full)-4 {
 			return "", false
@@ -114,10 +168,19 @@ func c14Build(c c14Case) (sql string, want []int, ok bool) {
 	b.WriteString(c14Skels[c.Skel][0])
 	want = []int{}
 	need := false
-	for _, t := range c.Toks {
+	for i, t := range c.Toks {
 		txt, tok := c14TokText(t)
 		if !tok {
 			return "", nil, false
+		}
+		if c14AtEnd(t) {
+			if i != len(c.Toks)-1 || c14Skels[c.Skel][1] != "" {
+				return "", nil, false
+			}
+			if !need {
+				b.WriteString(" 1")
+				need = true
+			}
 		}
 		if c14IsComment(t.Kind) {
 			b.WriteString(" ")
@@ -221,7 +284,7 @@ func c14Fails(c c14Case) bool {
 func c14Clone(c c14Case) c14Case {
 	d := c14Case{Skel: c.Skel, Toks: make([]c14Tok, len(c.Toks))}
 	for i, t := range c.Toks {
-		d.Toks[i] = c14Tok{Kind: t.Kind, Body: append([]string{}, t.Body...)}
+		d.Toks[i] = c14Tok{Kind: t.Kind, Body: append([]string{}, t.Body...), Open: t.Open, Term: t.Term}
 	}
 	return d
 }
@@ -260,6 +323,24 @@ func c14Shrink(c c14Case) c14Case {
 			for j := 0; j < len(c.Toks[i].Body) && !changed; j++ {
 				d := c14Clone(c)
 				d.Toks[i].Body = append(d.Toks[i].Body[:j], d.Toks[i].Body[j+1:]...)
+				if c14Fails(d) {
+					c, changed = d, true
+				}
+			}
+		}
+		// default opener / terminator of a comment
+		for i := 0; i < len(c.Toks) && !changed; i++ {
+			if c.Toks[i].Open != "" {
+				d := c14Clone(c)
+				d.Toks[i].Open = ""
+				if c14Fails(d) {
+					c, changed = d, true
+					continue
+				}
+			}
+			if c.Toks[i].Term != "" {
+				d := c14Clone(c)
+				d.Toks[i].Term = ""
 				if c14Fails(d) {
 					c, changed = d, true
 				}
@@ -308,7 +389,15 @@ func c14Desc(t c14Tok) string {
 	if t.Kind == "ph" || t.Kind == "mm" {
 		return t.Kind
 	}
-	return t.Kind + "[" + strings.Join(t.Body, ",") + "]"
+	d := t.Kind
+	if t.Open != "" {
+		d += "<" + t.Open + ">"
+	}
+	d += "[" + strings.Join(t.Body, ",") + "]"
+	if t.Term != "" {
+		d += "<" + t.Term + ">"
+	}
+	return d
 }
 
 func c14Sig(c c14Case) (sig, what string) {
@@ -338,10 +427,11 @@ var c14Alphabet = []c14Tok{
 	{Kind: "hash", Body: []string{"q", "dq"}},
 	{Kind: "cc", Body: []string{"q", "sq"}},
 	{Kind: "mm"},
+	{Kind: "dash", Open: "tab", Body: []string{"q", "sq"}},
 }
 
 func TestVerif_C14(t *testing.T) {
-	rec := kit.Start("C14", "exploration", "statements assembled from lexical units (placeholder, '…', \"…\", `…`, -- …, #…, /*…*/, 1--2) whose bodies are sequences of named pieces (?, \\', \\\", '', \"\", \\\\, other quote chars, comment markers, newline) in 3 statement skeletons; (a) every unit with every body up to a length bound, alone and next to a real placeholder, (b) every sequence of a 15-unit alphabet up to a length bound, (c) random sequences of random units; non-trivial = distinct (set of unit descriptions, number of real placeholders, outcome)")
+	rec := kit.Start("C14", "exploration", "statements assembled from lexical units (placeholder, '…', \"…\", `…`, -- …, #…, /*…*/, 1--2) whose bodies are sequences of named pieces (?, \\', \\\", '', \"\", \\\\, other quote chars, comment markers, newline) in 3 statement skeletons; (a) every unit with every body up to a length bound, alone and next to a real placeholder, (a2) every opener/terminator of the comment units (what follows --, how a line comment ends, bytes after /* and before */), (b) every sequence of a 16-unit alphabet up to a length bound, (c) random sequences of random units; non-trivial = distinct (set of unit descriptions, number of real placeholders, outcome)")
 	rec.Assume("default sql_mode: backslash is an escape inside '…' and \"…\", \"…\" is a string (no ANSI_QUOTES, no NO_BACKSLASH_ESCAPES)")
 	rec.Assume("/*! … */ and /*+ … */ (executable comments / hints) are not generated")
 	defer rec.Finish(t)
@@ -387,6 +477,10 @@ func TestVerif_C14(t *testing.T) {
 		if !ok {
 			rec.Count("generator.invalid_skipped", 1)
 			return
+		}
+		if selfCheck && c14ParserDisagrees(c) {
+			rec.Count("selfcheck.skipped_control_char_after_dashes", 1)
+			selfCheck = false
 		}
 		if selfCheck {
 			rec.Count("selfcheck.parsed", 1)
@@ -462,6 +556,66 @@ func TestVerif_C14(t *testing.T) {
 	}
 	rec.Set("units_enumerated_body_len", maxBody)
 
+	// (a2) every opener / terminator of the comment units: what follows "--" (space, tab,
+	// line break, CR, FF, VT, other control bytes, end of text), how a "-- " / "#" comment ends
+	// (\n, \r\n, end of text), the bytes right after /* and right before */
+	maxVarBody := kit.N(1, 2)
+	type c14oc struct{ open, term string }
+	variants := map[string][]c14oc{}
+	for _, o := range c14DashOpens {
+		for _, tm := range c14LineTerms {
+			variants["dash"] = append(variants["dash"], c14oc{o, tm})
+		}
+	}
+	for _, tm := range c14LineTerms {
+		variants["hash"] = append(variants["hash"], c14oc{"", tm})
+	}
+	for _, o := range c14CcOpens {
+		for _, tm := range c14CcTerms {
+			variants["cc"] = append(variants["cc"], c14oc{o, tm})
+		}
+	}
+	nvar := 0
+	for _, kind := range []string{"dash", "hash", "cc"} {
+		pieces := c14Valid[kind]
+		bodies := [][]string{{}}
+		frontier := [][]string{{}}
+		for l := 1; l <= maxVarBody; l++ {
+			var next [][]string
+			for _, b := range frontier {
+				for _, p := range pieces {
+					next = append(next, append(append([]string{}, b...), p))
+				}
+			}
+			bodies = append(bodies, next...)
+			frontier = next
+		}
+		for vi, v := range variants[kind] {
+			if v.open == "" && v.term == "" {
+				continue // done in (a)
+			}
+			for bi, body := range bodies {
+				tk := c14Tok{Kind: kind, Body: body, Open: v.open, Term: v.term}
+				if _, ok := c14TokText(tk); !ok {
+					continue
+				}
+				d := c14Desc(tk)
+				skel := (vi + bi) % len(c14Skels)
+				arrs := [][]c14Tok{{tk}, {{Kind: "ph"}, tk}, {tk, {Kind: "ph"}}, {{Kind: "ph"}, tk, {Kind: "ph"}}}
+				if c14AtEnd(tk) {
+					skel = 3
+					arrs = arrs[:2]
+				}
+				for arr, toks := range arrs {
+					evals++
+					nvar++
+					runOne(c14Case{Skel: skel, Toks: toks}, true, fmt.Sprintf("v%d/%s", arr, d))
+				}
+			}
+		}
+	}
+	rec.Set("opener_terminator_variant_cases", nvar)
+
 	// (b) every sequence over the fixed alphabet up to maxLen
 	maxLen := kit.N(3, 6)
 	na := len(c14Alphabet)
@@ -525,8 +679,23 @@ func TestVerif_C14(t *testing.T) {
 				}
 				tk.Body = tk.Body[:len(tk.Body)-1]
 			}
+			if r.Chance(1, 2) {
+				v := tk
+				switch kind {
+				case "dash":
+					v.Open, v.Term = r.Pick(c14DashOpens[:9]), r.Pick(c14LineTerms[:2])
+				case "hash":
+					v.Term = r.Pick(c14LineTerms[:2])
+				case "cc":
+					v.Open, v.Term = r.Pick(c14CcOpens), r.Pick(c14CcTerms)
+				}
+				if _, ok := c14TokText(v); ok {
+					tk = v
+				}
+			}
 			c.Toks = append(c.Toks, tk)
 			u := append([]string{}, tk.Body...)
+			u = append(u, "<"+tk.Open+tk.Term+">")
 			sort.Strings(u)
 			ds = append(ds, kind+strings.Join(u, ""))
 		}
